@@ -510,5 +510,7 @@ def run(chk):
     from . import c13
     c13.rule_serializer_flow(chk)  # a typed action whose serializers are dropped on the way is never validated
     c13.rule_wiring(chk)
+    from . import c03
+    c03.rule_failfields(chk)  # the failed end message that is validated carries the computed status/exception/reason, not an extractor's overrides
     c13.rule_attach(chk)  # validation is driven by the serializer that travels with each message: a path that drops it is never validated
     common.rule_forwarding(chk, "C14", keys=[("_action", "start_action"), ("_action", "startTask"), ("_action", "Action.child"), ("_action", "Action.continue_task"), ("_action", "Action.__init__"), ("_action", "Action.log"), ("_action", "log_message"), ("_validation", "ActionType.__call__"), ("_validation", "ActionType.as_task"), ("_validation", "MessageType.log"), ("_validation", "MessageType.__call__"), ("_message", "Message.write"), ("_message", "Message.__init__"), ("_output", "Logger.write"), ("_output", "MemoryLogger.write")])
